@@ -276,8 +276,12 @@ ResSel(node, L) == /\ (Has("resnameIgnored") \/ node.rn = L.name)
                    /\ L.lo <= node.id
                    /\ (IF Has("closedRes") THEN node.id <= L.hi ELSE node.id < L.hi)
 OptsFor(c, f, m) == Asc(UNION { ToSet(f[k]) : k \in {q \in DOMAIN f : q[2] = m /\ (Has("molNameIgnored") \/ q[1] = NameOf(c, m))} })
+\* _tag_nodes visits the residues in their listing order (order of first atom in [ atoms ]), which is independent of the residue ids;
+\* deviation breakAtFirstBeyond: the loop stops at the first listed residue whose id is at or behind the end of the range
+Reached(nodes, n, L) == ~Has("breakAtFirstBeyond") \/ \A k \in 1..(n - 1) : nodes[k].id < L.hi
 TagsFor(c, f, nodes, m) == [n \in 1..Len(nodes) |->
-     LET sel == SelectSeq(OptsFor(c, f, m), LAMBDA i : ResSel(nodes[n], c.bld[i])) IN [j \in 1..Len(sel) |-> c.bld[sel[j]].tag]]
+     LET sel == SelectSeq(OptsFor(c, f, m), LAMBDA i : ResSel(nodes[n], c.bld[i]) /\ Reached(nodes, n, c.bld[i]))
+     IN [j \in 1..Len(sel) |-> c.bld[sel[j]].tag]]
 Finalize(s, c) == [s EXCEPT !.geom = [i \in 1..NM(c) |-> TagsFor(c, s.bopts, s.nodes[i], i - 1)],
                             !.rw   = [i \in 1..NM(c) |-> TagsFor(c, s.rwo, s.nodes[i], i - 1)]]
 
